@@ -43,6 +43,7 @@ type RaftGroup struct {
 	snapshotFn        SnapshotFn
 
 	raft          etcdRaft.Node
+	restarted     bool
 	raftConfState *raftpb.ConfState
 	raftLeaderId  uint64
 	wal           wal.WAL
@@ -102,6 +103,7 @@ func NewRaftGroup(id uuid.UUID, nodeIds []uint64, storage wal.WAL, transport *Ra
 	})
 
 	ctx, ctxCancel := context.WithCancel(context.Background())
+	restarted := hasDurableState(storage)
 	raftNode, err := startRaftNode(transport, nodeIds, storage, logger)
 	if err != nil {
 		return nil, err
@@ -116,6 +118,7 @@ func NewRaftGroup(id uuid.UUID, nodeIds []uint64, storage wal.WAL, transport *Ra
 		processSnapshotFn: nil,
 		snapshotFn:        nil,
 		raft:              raftNode,
+		restarted:         restarted,
 		wal:               storage,
 		log:               logger,
 	}
@@ -172,6 +175,12 @@ func (this *RaftGroup) RegisterSnapshotFn(fn SnapshotFn) error {
 	}
 	this.snapshotFn = fn
 	return nil
+}
+
+// StartedWithDurableState tells whether the group's log store already held
+// state when the group was created, i.e. this is a restart of a group member.
+func (this *RaftGroup) StartedWithDurableState() bool {
+	return this.restarted
 }
 
 func (this *RaftGroup) LeaderId() uint64 {
